@@ -741,6 +741,8 @@ func init() {
 			}
 			if other == 0 && cmp == 1 && shift == 1 && (plus == 2 || (plus == 1 && startsAtOne)) {
 				r.ok(key, fnName(fn), c.pos(fn.Pos()), "counts one byte per 7 bits: for x >= 0x80 { x >>= 7; n++ }; n+1")
+			} else if uvarintLenClosedForm(fn) {
+				r.ok(key, fnName(fn), c.pos(fn.Pos()), "closed form: (bits.Len64(x|1)+6)/7 - seven bits per byte, and zero still takes one byte")
 			} else {
 				r.bad(key, fnName(fn), c.pos(fn.Pos()), "numUvarintBytes no longer has the shape of the uvarint length loop (constants now: "+got+")")
 			}
@@ -1516,7 +1518,7 @@ func init() {
 			}
 			var trueRet *ssa.BasicBlock
 			for _, b := range fn.Blocks {
-				if ret, ok := b.Instrs[len(b.Instrs)-1].(*ssa.Return); ok && len(ret.Results) == 3 {
+				if ret, ok := b.Instrs[len(b.Instrs)-1].(*ssa.Return); ok && len(ret.Results) >= 1 {
 					if k, ok := ret.Results[0].(*ssa.Const); ok && k.Value != nil && k.Value.Kind() == constant.Bool && constant.BoolVal(k.Value) {
 						trueRet = b
 					}
@@ -1539,6 +1541,8 @@ func init() {
 					switch {
 					case op == token.EQL && (sx == "(param:termCardinality==1)" || sx == "(1==param:termCardinality)"):
 						return 0, neg, true
+					case op == token.EQL && isCardinalityOne(x):
+						return 0, neg, true
 					case (op == token.LEQ || op == token.EQL) && strings.Contains(exprSig(x.X, 0), "FinalSize(") && exprSig(x.Y, 0) == "0":
 						return 1, neg, true
 					case op == token.GTR && strings.Contains(exprSig(x.X, 0), "FinalSize(") && exprSig(x.Y, 0) == "0":
@@ -1551,6 +1555,21 @@ func init() {
 				case *ssa.Call:
 					if sc := x.Call.StaticCallee(); sc != nil && fnName(sc) == "under32Bits" {
 						return 2, false, true
+					}
+				case *ssa.Parameter:
+					// `hasLocs bool`, bound at every call to `locEncoder.FinalSize() > 0`
+					if isBoolType(x.Type()) {
+						sites := c.callsTo(x.Parent())
+						all := len(sites) > 0
+						for _, site := range sites {
+							bo, ok := argFor(site.Common(), x).(*ssa.BinOp)
+							if !ok || bo.Op != token.GTR || !strings.Contains(exprSig(bo.X, 0), "FinalSize(") || exprSig(bo.Y, 0) != "0" {
+								all = false
+							}
+						}
+						if all {
+							return 1, true, true
+						}
 					}
 				}
 				return 0, false, false
@@ -2126,4 +2145,106 @@ func (c *Ctx) placeReachesWritePostings(fn *ssa.Function, ld *ssa.UnOp) bool {
 		}
 	}
 	return false
+}
+
+// uvarintLenClosedForm: fn(x) returns (bits.Len64(x|1)+6)/7 on every return -
+// or (bits.Len64(x)+6)/7 behind an `x == 0` guard that returns 1.
+func uvarintLenClosedForm(fn *ssa.Function) bool {
+	if len(fn.Params) != 1 || fn.Blocks == nil {
+		return false
+	}
+	x := ssa.Value(fn.Params[0])
+	closed := func(v ssa.Value) (arg ssa.Value, ok bool) {
+		q, ok := stripConv(v).(*ssa.BinOp)
+		if !ok || q.Op != token.QUO {
+			return nil, false
+		}
+		if k, isK := constInt(q.Y); !isK || k != 7 {
+			return nil, false
+		}
+		a, ok := stripConv(q.X).(*ssa.BinOp)
+		if !ok || a.Op != token.ADD {
+			return nil, false
+		}
+		l, k := a.X, a.Y
+		if _, isK := constInt(l); isK {
+			l, k = k, l
+		}
+		if kv, isK := constInt(k); !isK || kv != 6 {
+			return nil, false
+		}
+		call, ok := stripConv(l).(*ssa.Call)
+		if !ok || call.Call.StaticCallee() == nil || funcFullName(call.Call.StaticCallee()) != "math/bits.Len64" {
+			return nil, false
+		}
+		return call.Call.Args[0], true
+	}
+	nClosed, nOne := 0, 0
+	guarded := true
+	for _, b := range fn.Blocks {
+		ret, ok := b.Instrs[len(b.Instrs)-1].(*ssa.Return)
+		if !ok || len(ret.Results) != 1 {
+			continue
+		}
+		rv := resolveLoad(ret.Results[0])
+		if k, isK := constInt(rv); isK && k == 1 {
+			nOne++
+			continue
+		}
+		arg, ok := closed(rv)
+		if !ok {
+			return false
+		}
+		nClosed++
+		if or, isOr := stripConv(arg).(*ssa.BinOp); isOr && or.Op == token.OR {
+			k1, ok1 := constInt(or.Y)
+			k2, ok2 := constInt(or.X)
+			if (ok1 && k1 == 1 && or.X == x) || (ok2 && k2 == 1 && or.Y == x) {
+				continue
+			}
+			return false
+		}
+		if stripConv(arg) != x {
+			return false
+		}
+		// plain Len64(x): zero must have been sent away
+		okGuard := false
+		for _, tb := range fn.Blocks {
+			ifi, isIf := tb.Instrs[len(tb.Instrs)-1].(*ssa.If)
+			if !isIf {
+				continue
+			}
+			bin, isBin := ifi.Cond.(*ssa.BinOp)
+			if !isBin || (bin.Op != token.EQL && bin.Op != token.NEQ) || bin.X != x {
+				continue
+			}
+			if k, isK := constInt(bin.Y); !isK || k != 0 {
+				continue
+			}
+			nz := tb.Succs[1]
+			if bin.Op == token.NEQ {
+				nz = tb.Succs[0]
+			}
+			if len(nz.Preds) == 1 && (nz == b || nz.Dominates(b)) {
+				okGuard = true
+			}
+		}
+		if !okGuard {
+			guarded = false
+		}
+	}
+	return nClosed > 0 && guarded
+}
+
+// isCardinalityOne: bitmap.GetCardinality() == 1 (either operand order).
+func isCardinalityOne(bin *ssa.BinOp) bool {
+	x, y := stripConv(bin.X), stripConv(bin.Y)
+	if k, ok := constInt(x); ok && k == 1 {
+		x, y = y, x
+	}
+	if k, ok := constInt(y); !ok || k != 1 {
+		return false
+	}
+	call, ok := x.(*ssa.Call)
+	return ok && call.Call.StaticCallee() != nil && call.Call.StaticCallee().Name() == "GetCardinality"
 }
